@@ -17,6 +17,7 @@ type structFieldSet struct {
 	dec         Decoder
 	offset      uintptr
 	isTaggedKey bool
+	depth       int // embedding depth: 0 for a field of the struct itself
 	fieldIdx    int
 	key         string
 	keyLen      int64
